@@ -9,6 +9,7 @@
 #include <vf/mt.hpp>
 
 #include <unifex/at_coroutine_exit.hpp>
+#include <unifex/v2/async_manual_reset_event.hpp>
 #include <unifex/just.hpp>
 #include <unifex/on.hpp>
 #include <unifex/scheduler_concepts.hpp>
@@ -61,6 +62,7 @@ inline void on_body_thread(const char* where) {
   if (std::this_thread::get_id() != g_ctxA_thread) {
     g_wrong_thread.fetch_add(1, std::memory_order_relaxed);
     violation("C10:coromt:resumed-on-wrong-thread", "%s ran off the task's scheduler", where);
+    violation("C11:coromt:resumed-on-wrong-thread", "%s ran off the task's scheduler", where);
   }
 }
 
@@ -128,8 +130,15 @@ unifex::task<int> body(plan p, sched_t s) {
     ++reg;
   }
   if (p.hang_at_end) {
-    co_await unifex::schedule_after(s, std::chrono::hours(1));
-    violation("C10:coromt:resumed-after-hour-timer", "a one-hour timer completed with value");
+    if (r.below(2)) {
+      co_await unifex::schedule_after(s, std::chrono::hours(1));
+    } else {
+      // a sender that completes inline from its stop callback, on whichever thread delivers the stop request: the
+      // task's stop-request thunk must deliver it on the task's scheduler
+      unifex::v2::async_manual_reset_event never_set;
+      co_await never_set.async_wait();
+    }
+    violation("C10:coromt:resumed-after-endless-wait", "a wait that only a stop request can end completed with value");
   }
   co_return acc + 1;
 }
